@@ -254,13 +254,17 @@ func RunEntry(l *driver.Loaded, b *Builder, entryKey string, opt RunOpts) (*Entr
 					rep.Samples = append(rep.Samples, desc+"\n"+in.Src)
 				}
 				if in.ParseErr != nil {
-					rep.Results = append(rep.Results, ores(entryKey, "G4", "parses", vid, false, in.ParseErr.Error()+" on path "+desc, in.Src))
+					r := ores(entryKey, "G4", "parses", vid, false, in.ParseErr.Error()+" on path "+desc, in.Src)
+					r.Concrete, _ = in.ConcretePackage(b.PrefixOf)
+					rep.Results = append(rep.Results, r)
 					continue
 				}
 				rep.Results = append(rep.Results, ores(entryKey, "G4", "parses", vid, true, "", ""))
 				rep.Results = append(rep.Results, ores(entryKey, "hole-integrity", "", vid, len(in.Torn) == 0, strings.Join(in.Torn, "; ")+" on path "+desc, in.Src))
 				if len(in.TypeErrs) > 0 {
-					rep.Results = append(rep.Results, ores(entryKey, "typecheck", "", vid, false, strings.Join(in.TypeErrs, "; ")+" on path "+desc, in.Src))
+					r := ores(entryKey, "typecheck", "", vid, false, strings.Join(in.TypeErrs, "; ")+" on path "+desc, in.Src)
+					r.Concrete, _ = in.ConcretePackage(b.PrefixOf)
+					rep.Results = append(rep.Results, r)
 					continue
 				}
 				rep.Results = append(rep.Results, ores(entryKey, "typecheck", "", vid, true, "", ""))
